@@ -109,6 +109,18 @@ func signPayload(key signKey, cs *pipeline.CommandStep, repo string, penv map[st
 	return sg, lg.payloads[0], nil
 }
 
+// verifyPayload: Verify with debug logging on; the payload it rebuilt from the presented step
+func verifyPayload(key signKey, sg *pipeline.Signature, cs *pipeline.CommandStep, repo string, penv map[string]string) ([]byte, error) {
+	lg := &payloadLogger{}
+	err := signature.Verify(context.Background(), sg, key.verify,
+		&signature.CommandStepWithInvariants{CommandStep: *cs, RepositoryURL: repo},
+		signature.WithEnv(penv), signature.WithLogger(lg), signature.WithDebugSigning(true))
+	if len(lg.payloads) != 1 {
+		return nil, err
+	}
+	return lg.payloads[0], err
+}
+
 func verifyStep(key signKey, sg *pipeline.Signature, cs *pipeline.CommandStep, repo string, penv map[string]string) error {
 	return signature.Verify(context.Background(), sg, key.verify,
 		&signature.CommandStepWithInvariants{CommandStep: *cs, RepositoryURL: repo}, signature.WithEnv(penv))
